@@ -64,3 +64,48 @@ def smooth_curves(rng, n, t, rough=False, scale=1.0, offset=0.0):
 
 def dyadic_matrix(rng, n, m, bits=4, lo=-4, hi=4):
     return np.round(rng.uniform(lo, hi, size=(n, m)) * 2 ** bits) / 2 ** bits
+
+
+def dense_raw(t, x):
+    """like dense() but keeps the dtypes of the caller's arrays (integer grids / integer-valued curves)"""
+    from FDApy.representation.functional_data import DenseFunctionalData
+    from FDApy.representation.argvals import DenseArgvals
+    from FDApy.representation.values import DenseValues
+    if isinstance(t, (list, tuple)):
+        av = {f"input_dim_{i}": np.asarray(ti) for i, ti in enumerate(t)}
+    else:
+        av = {"input_dim_0": np.asarray(t)}
+    return DenseFunctionalData(DenseArgvals(av), DenseValues(np.asarray(x)))
+
+
+def dtype_monitor(rep, rng, ops, what):
+    """Integer-valued curves and integer grids (counts, days, indices) are legitimate inputs: every operation in `ops`
+    (name -> function of a dense dataset) must give, on integer-dtype arrays, what it gives on the same numbers as floats."""
+    import warnings
+    m, n = int(rng.integers(6, 10)), int(rng.integers(3, 6))
+    x = np.arange(1, m + 1) * int(rng.integers(1, 4))
+    Xi = rng.integers(-6, 7, size=(n, m))
+    Xi[:, 0] += np.arange(n)                              # no constant column, no identical curves
+    xf, Xf = x.astype(float), Xi.astype(float)
+    ref_d = dense(xf, Xf)
+    for label, build in (("integer values on an integer grid", lambda: dense_raw(x, Xi)),
+                         ("integer values on a float grid", lambda: dense_raw(xf, Xi)),
+                         ("float values on an integer grid", lambda: dense_raw(x, Xf))):
+        bad = []
+        for name, fn in ops.items():
+            with warnings.catch_warnings():
+                warnings.simplefilter("ignore")
+                want = np.asarray(fn(dense(xf, Xf)), float)
+                try:
+                    got = np.asarray(fn(build()), float)
+                except Exception as e:  # noqa: BLE001
+                    bad.append(f"{name} raised {type(e).__name__}: {str(e)[:80]}")
+                    continue
+            if got.shape != want.shape or not np.allclose(got, want, rtol=1e-10, equal_nan=True,
+                                                          atol=1e-10 * max(1.0, float(np.nanmax(np.abs(want), initial=0)))):
+                dev = float(np.max(np.abs(got - want))) if got.shape == want.shape else float("nan")
+                bad.append(f"{name} differs from the result on the same numbers as floats (max {dev:.3g})")
+        rep.case(("dtype", what, label, Xi.tobytes()), kind=f"dtype/{label}")
+        if bad:
+            rep.violation(f"{what}: {label}: " + "; ".join(bad), {"x": x.tolist(), "X": Xi.tolist(), "case": label})
+    del ref_d
